@@ -506,6 +506,10 @@ HASH_P = 2305843009213693951
 HASH_B = (1000003, 998244353)
 
 
+def _limit(ctx):
+    return 150 if ctx.thorough else TABLE_LIMIT
+
+
 def hash_cells(B, cells):
     h = 0
     for c in cells:
@@ -568,7 +572,7 @@ def eval_model(ctx, jobs):
             for key, j in ch:
                 a = _coq_args(j[1])
                 if j[0] == "table":
-                    body.append(f"Eval vm_compute in (expand_table_z {TABLE_LIMIT} {a}).")
+                    body.append(f"Eval vm_compute in (expand_table_z {_limit(ctx)} {a}).")
                 elif j[0] == "status":
                     body.append(f"Eval vm_compute in (expand_dims {a}, expand_order {a}).")
                 else:
@@ -598,7 +602,7 @@ def eval_model(ctx, jobs):
             else:
                 rdims, rest = h
                 ncells, body = rest[0], rest[1:]
-                if len(body) == ncells and (TABLE_LIMIT == 0 or ncells <= TABLE_LIMIT):
+                if len(body) == ncells and ncells <= _limit(ctx):
                     res[key] = (rdims, ncells, list(body), None)
                 elif len(body) == 2:
                     res[key] = (rdims, ncells, None, tuple(body))
@@ -755,7 +759,10 @@ def correspond(ctx):
             if ok:
                 units = [(r, cc) for r in range(C) for cc in range(C)]
                 if len(units) > 16:
-                    units = rng.sample(units, ctx.n(4, 12))
+                    units = rng.sample(units, ctx.n(4, 12) if E.shape[0] <= 100 else ctx.n(3, 5))
+                groups = {}
+                for kxy, v in mm.items():
+                    groups.setdefault(v, set()).add(kxy)
                 for r, cc in units:
                     U = np.zeros((C, C), dtype=complex)
                     U[r, cc] = 1.0
@@ -764,7 +771,7 @@ def correspond(ctx):
                         corr.disagree(dict(inp, op=["unit", r, cc]), "rejected", "Ok", "matrix unit rejected")
                         break
                     E2 = o2.full()
-                    want = {k for k, v in mm.items() if v == (r, cc)}
+                    want = groups.get((r, cc), set())
                     got = {(int(i), int(j)) for i, j in np.argwhere(E2 != 0)}
                     if got != want or not all(E2[i, j] == 1.0 for i, j in got):
                         corr.disagree(dict(inp, op=["unit", r, cc]), sorted(got)[:6], sorted(want)[:6],
